@@ -424,8 +424,17 @@ fn eval_case_inner(line: &str) -> String {
                     let _ = (format!("{}", f), format!("{:?}", f));
                     let m = Message::from(f.clone());
                     let _ = (format!("{}", m), format!("{:?}", m));
+                    // encoding the decoded frame again (itself, a clone, after a trip through Message) gives the documented
+                    // upper-case encoding of its fields, whatever text it was decoded from
+                    let want = crate::gen::ref_encode(f.address().0, f.message_type().0, f.data(), false);
+                    let via_msg = Frame::from(Message::from(f.clone())).to_bytes();
+                    if f.to_bytes() == want && f.clone().to_bytes() == want && via_msg == want && f.to_bytes_with_newline()[..want.len()] == want[..] {
+                        String::new()
+                    } else {
+                        format!(" BUT-ENCODES-AS {}", hex_of_bytes(&f.to_bytes()))
+                    }
                 }) {
-                    Some(()) => format!("OK {}", str_frame(&f)),
+                    Some(extra) => format!("OK {}{}", str_frame(&f), extra),
                     None => "PANIC-WHILE-DESCRIBING".to_string(),
                 },
                 Some(Err(e)) => match guarded(|| (e.to_string(), format!("{:?}", e))) {
